@@ -2,6 +2,8 @@ package main
 
 import (
 	"errors"
+	"io"
+	"log"
 
 	"git.torproject.org/pluggable-transports/snowflake.git/v2/common/bridgefingerprint"
 	"git.torproject.org/pluggable-transports/snowflake.git/v2/common/ipsetsink/sinkcluster"
@@ -36,6 +38,8 @@ func VerifC19_JournalFeed() {
 		ctx.metrics.geoipdb = &geoip.Geoip{}
 	}
 	ctx.metrics.SetIPAddressRecorder(new(sinkcluster.ClusterWriter))
+	ctx.metrics.logger = log.New(io.Discard, "", 0)
+	verifMetricsLogger = ctx.metrics.logger
 	i := &IPC{ctx}
 	verifProxyNAT[0], verifProxyNAT[1] = "unrestricted", "restricted"
 	addrs := [3]string{"192.0.2.1:1", "192.0.2.2:1", ""}
@@ -130,3 +134,14 @@ func VerifC03_CountPlumbing() {
 	}
 	verifapi.Quiesce() // let the poll time out and return
 }
+
+// C07 / C19: the metrics logger writes the published metrics file, which is not scrubbed: the
+// only thing that may go through it are the metrics lines themselves (printMetrics), never
+// diagnostics that can quote an address.
+var verifInPrintMetrics bool
+
+func verifLoggerPrintlnGuard(l *log.Logger, v ...interface{}) {
+	verifapi.Assert(verifMetricsLogger == nil || l != verifMetricsLogger, "C07: request handling writes nothing through the (unscrubbed) metrics logger")
+}
+
+var verifMetricsLogger *log.Logger
